@@ -465,6 +465,10 @@ class Sim:
             _active_task=None, _running=True, _mailboxes={},
             _mailbox_counter=0, _cache={}, most_recent_read_submit=None,
             read_receipt_mutex=Lock(), incoming_thread=FakeThread(),
+            # created by Worker.__init__ since the maintainer's mailbox-mutex
+            # fix (C07 finding 1); harmless extra attribute on a tree
+            # without the fix (`_fill` only complains about MISSING names)
+            _mailbox_mutex=Lock(),
         ), [(Worker, ('__init__',))])
         n.obj = w
 
